@@ -415,12 +415,19 @@ def in_slice(tags, sl):
     return sl == 'ALL' or '*' in tags or sl in tags
 
 
-def clause_text(clauses, sl, kinds):
+CLAUSES = []   # registry of woven clauses of the current extraction: index = clause id
+
+
+def clause_text(clauses, sl, kinds, owner=''):
     out = []
     for kind in kinds:
         cs = [c for c in clauses if c['kind'] == kind and in_slice(c['tags'], sl)]
         if cs:
-            out.append('    ' + kind + '\n' + ''.join('        %s,\n' % c['expr'] for c in cs))
+            out.append('    ' + kind + '\n')
+            for c in cs:
+                cid = len(CLAUSES)
+                CLAUSES.append({'id': cid, 'owner': owner, 'kind': kind, 'tags': c['tags'], 'expr': c['expr']})
+                out.append('        /*@c:%d*/%s,\n' % (cid, c['expr']))
     return ''.join(out)
 
 
@@ -447,7 +454,7 @@ def weave_fn(src, item, contract, sl, loops, keybase, used):
             elif depth == 0 and t.text == '-' and k + 1 < len(stoks) and stoks[k + 1].text == '>' and stoks[k + 1].start == t.end:
                 arrow = k
                 break
-        spec = clause_text(contract['clauses'], sl, ['requires', 'ensures', 'decreases'])
+        spec = clause_text(contract['clauses'], sl, ['requires', 'ensures', 'decreases'], keybase)
         if contract['ret'] and arrow is not None and spec:
             rt_start = stoks[arrow + 2].start
             rt_end = stoks[-1].end
@@ -485,7 +492,7 @@ def weave_fn(src, item, contract, sl, loops, keybase, used):
                 elif t.text == 'in' and depth == 0 and in_tok is None and btoks[k].text == 'for':
                     in_tok = t
                 j += 1
-            spec = clause_text(lc['clauses'], sl, ['invariant', 'decreases'])
+            spec = clause_text(lc['clauses'], sl, ['invariant', 'decreases'], '%s loop#%d' % lk)
             if spec:
                 if lc.get('iter') and in_tok is not None:
                     edits.append((in_tok.end, ' ' + ins(lc['iter'] + ':')))
@@ -599,7 +606,8 @@ class Extractor:
         self.repo, self.unit, self.sl, self.c = repo, unit, sl, contracts
         self.features = set(unit.get('features', ['std']))
         self.out = []
-        self.manifest = {'unit': unit['name'], 'slice': sl, 'items': [], 'dropped': [], 'rewrites': [], 'from_impls': []}
+        self.manifest = {'unit': unit['name'], 'slice': sl, 'items': [], 'dropped': [], 'rewrites': [], 'from_impls': [], 'preludes': []}
+        del CLAUSES[:]
         self.used = set()
         self.fidelity = []   # (key, source_tokens_sha, generated_text)
         self.macros = None
@@ -750,7 +758,7 @@ class Extractor:
         spec = ''
         if c:
             self.used.add(c['key'])
-            spec = clause_text(c['clauses'], self.sl, ['ensures'])
+            spec = clause_text(c['clauses'], self.sl, ['ensures'], 'derive Default::' + it.name)
         return ins('impl Default for %s {\n    fn default() -> (r: Self)\n%s    {\n        %s { %s }\n    }\n}' % (it.name, spec, it.name, body)) + '\n'
 
     def do_macro(self, src, it, fkey, policy):
@@ -818,7 +826,11 @@ class Extractor:
             if 'TOP' in tags:
                 continue
             if in_slice(tags, self.sl):
-                self.emit('\n// ---- prelude [%s]: %s\n%s\n' % (','.join(tags), title, '\n'.join(lines)))
+                pid = len(self.manifest['preludes'])
+                self.manifest['preludes'].append({'id': pid, 'tags': tags, 'title': title})
+                self.emit('\n// ---- prelude [%s]: %s\n/*@p:%d<*/\n%s\n/*@p:%d>*/\n' % (','.join(tags), title, pid, '\n'.join(lines), pid))
+        # vacuity canary: must be the one and only failing obligation of an otherwise clean run
+        self.emit('\n/*@canary<*/ proof fn verif_canary() ensures false {} /*@canary>*/\n')
         self.emit('\n} // verus!\nfn main() {}\n')
         # anchors: every contract entry of this unit must have been used
         missing = []
@@ -834,6 +846,22 @@ class Extractor:
             raise Unsupported('more than %d `.elapsed()` call(s) in the extracted files: the clock_reading assumption (DESIGN 2.7) would be unsound' % u.get('max_elapsed_calls', 0))
         text = ''.join(self.out)
         self.check_fidelity()
+        # line map of woven clauses, prelude blocks, canary and extracted items
+        lines = text.split('\n')
+        cl = {}
+        for n, ln in enumerate(lines, 1):
+            for m in re.finditer(r'/\*@c:(\d+)\*/', ln):
+                cid = int(m.group(1))
+                c = dict(CLAUSES[cid])
+                c['line_start'] = n
+                c['line_end'] = n + c['expr'].count('\n')
+                cl[cid] = c
+            for m in re.finditer(r'/\*@p:(\d+)([<>])\*/', ln):
+                self.manifest['preludes'][int(m.group(1))]['line_start' if m.group(2) == '<' else 'line_end'] = n
+            if '/*@canary<*/' in ln:
+                self.manifest['canary_line'] = n
+        self.manifest['clauses'] = [cl[k] for k in sorted(cl)]
+        self.manifest['trusted_scan'] = scan_trusted(text)
         return text
 
     def check_fidelity(self):
@@ -846,6 +874,17 @@ class Extractor:
                     k += 1
                 raise Unsupported('fidelity mismatch in %s at token %d: source %r vs generated %r' % (key, k, src_toks[k:k + 5], back[k:k + 5]))
         self.manifest['fidelity'] = 'ok: %d items round-trip to their source token streams' % len(self.fidelity)
+
+
+def scan_trusted(text):
+    """mechanical scan of the generated file for everything that is assumed rather than proved"""
+    found = []
+    for n, ln in enumerate(text.split('\n'), 1):
+        code = ln.split('//')[0]
+        for pat in ('assume(', 'admit(', 'external_body', 'assume_specification', 'axiom fn', 'uninterp spec fn', 'external_type_specification', 'external_trait_specification'):
+            if pat in code:
+                found.append({'line': n, 'what': pat, 'text': ln.strip()[:200]})
+    return found
 
 
 def load_unit(name):
